@@ -187,7 +187,7 @@ def _unrepresentable(project, ids):
     for i in ids:
         for k, v in _flat(project.open_job(id=i).statepoint()).items():
             for x in (k, v):
-                if isinstance(x, str) and (os.sep in x or x in (".", "..")):
+                if isinstance(x, str) and (os.sep in x or x in ("", ".", "..")):
                     return True
     return False
 
@@ -231,6 +231,7 @@ def h_view__reach(m1: int, m2: int, bad2: int, sel: bool, custom: bool):
 
 # a state point key that is itself called 'job' (the name of the links), and values that are path expressions
 UJ = [{"job": 0}, {"job": 1}, {"job": 0, "b": 1}, {"a": ".."}, {"a": "."}, {"a": "x"}]
+UK = [{"a": ""}, {"a": "job"}, {"a": "x"}, {"a": "job", "b": 1}, {"a": "y", "job": 2}, {"a": "x", "job": 2}]   # a value spelled like the link name / the empty string
 
 
 def h_view_names(m1: int, m2: int, sel: int):
@@ -244,7 +245,19 @@ def h_view_names(m1: int, m2: int, sel: int):
     assert not problems
 
 
+def h_view_names2(m1: int, m2: int, sel: int):
+    assert 0 <= m1 < 64 and 0 <= m2 < 64 and 0 <= sel <= 1 and part_ok(m2)
+    assert tier() != "quick" or m1 in (0, 1, 4, 5, 7, 48)
+    fresh_path()
+    m1, m2, sel = ci(m1, 0, 63), ci(m2, 0, 63), ci(sel, 0, 1)
+    with nt():
+        problems = _case(m1, m2, 0, sel, False, UK)
+    reached()
+    assert not problems
+
+
 HARNESSES = [
     dict(name="h_view", twin="h_view__reach", timeout=(900, 3000), parts=(16, 32), unblock=True),
     dict(name="h_view_names", timeout=(300, 600), parts=(4, 4), unblock=True),
+    dict(name="h_view_names2", timeout=(400, 800), parts=(8, 8), unblock=True),
 ]
